@@ -19,7 +19,8 @@ ID = "C09"
 LEVEL = "fault_enumeration"
 REGISTER = True
 TECHNIQUE = "runtime fault injection at every enumerated (run, step, model) point + observation of the caller-visible exception and of the probe call log"
-RULE = ("generated pipelines (2-4 groups, 1-2 probe models each, 1-3 readouts, 2-4 swept runs); a fault is injected at "
+RULE = ("generated pipelines (2-4 groups, 1-2 probe models each, 1-3 readouts, 2-4 swept runs, with and without a pipeline seed, "
+        "sequential observations also with a second swept setting holding a long string or a list of 24-40 numbers); a fault is injected at "
         "EVERY (run, step, model position) point, one per execution, cycling through the exception classes ValueError, "
         "KeyError, RuntimeError, ZeroDivisionError, OSError, AssertionError, StopIteration, TypeError, IndexError, "
         "AttributeError, NotImplementedError, Exception, FileNotFoundError, TimeoutError, FloatingPointError, ImportError, "
@@ -30,7 +31,8 @@ ASSUMPTIONS = ["faults are exceptions raised by models; process kills are not in
                "under the process scheduler only picklable exception classes are injected (Python's pickling contract)",
                "inside the optimiser's worker threads only the message (not the type) must survive, as the statement says"]
 REQUIRED_COUNTERS = ["fault_points_planned", "fault_points_hit", "faults_exposure", "faults_obs_seq", "faults_obs_dask",
-                     "faults_obs_seq_at_configured_value",
+                     "faults_obs_seq_at_configured_value", "faults_with_pipeline_seed", "faults_without_pipeline_seed",
+                     "faults_obs_seq_with_long_value",
                      "faults_calibration_initial", "faults_calibration_evolution", "identity_checks", "no_events_after_fault_checks"]
 TIMEOUT = {"quick": 1200, "thorough": 5400}
 LEVEL_TEXT = ("Fault enumeration by runtime injection: for each generated pipeline every (run, step, model position) "
@@ -225,9 +227,13 @@ def pipeline_shard(rec, spec):
                          "own_note": ci % 2 == 0}
                 rec.count("fault_points_planned")
                 reset(point)
+                # a pipeline seed puts the whole readout loop inside the seeding context manager: with and without
+                pseed = None if (ci // 2) % 2 else rng.randint(0, 2**31 - 1)
+                point["pipeline_seed"] = pseed
+                rec.count("faults_with_pipeline_seed" if pseed is not None else "faults_without_pipeline_seed")
                 exc, ret = None, None
                 try:
-                    ret = pyxel.run_mode(mode=Exposure(readout=Readout(times=times)), detector=detector(),
+                    ret = pyxel.run_mode(mode=Exposure(readout=Readout(times=times), pipeline_seed=pseed), detector=detector(),
                                          pipeline=build.make_pipeline(pspec), with_inherited_coords=True)
                 except BaseException as e:  # noqa: BLE001
                     exc = e
@@ -261,8 +267,24 @@ def pipeline_shard(rec, spec):
                         rec.count("fault_points_planned")
                         reset(point)
                         dask_on = exec_mode != "obs_seq"
-                        obs = Observation(parameters=[ParameterValues(key=key, values=list(k_values))],
-                                          readout=Readout(times=times), with_dask=dask_on)
+                        pseed = None if (ci // 2) % 2 else rng.randint(0, 2**31 - 1)
+                        point["pipeline_seed"] = pseed
+                        rec.count("faults_with_pipeline_seed" if pseed is not None else "faults_without_pipeline_seed")
+                        params = [ParameterValues(key=key, values=list(k_values))]
+                        # sequentially executed runs: a second swept setting whose value is long (a path-like
+                        # string, a list of a few dozen numbers) must be attached to the error like any other
+                        extra = None
+                        if not dask_on and (ci // 4) % 3:
+                            g0, m0 = models[ci % len(models)]
+                            if (ci // 4) % 3 == 1:
+                                extra = "/data/" + "/".join(f"dir{rng.randint(0, 999):03d}" for _ in range(rng.randint(12, 20))) + "/frame.fits"
+                            else:
+                                extra = [float(rng.randint(0, 9999)) / 8 for _ in range(rng.randint(24, 40))]
+                            params.append(ParameterValues(key=f"pipeline.{g0}.{m0}.arguments.tag", values=[extra]))
+                            point["extra_key"], point["extra_value"] = params[-1].key, extra
+                            rec.count("faults_obs_seq_with_long_value")
+                        obs = Observation(parameters=params, readout=Readout(times=times), with_dask=dask_on,
+                                          pipeline_seed=pseed)
                         exc, ret = None, None
                         try:
                             ret = pyxel.run_mode(mode=obs, detector=detector(), pipeline=build.make_pipeline(pspec),
@@ -286,6 +308,14 @@ def pipeline_shard(rec, spec):
                         mode_tag = "obs_seq" if not dask_on else exec_mode
                         judge(rec, exc, ret, mode_tag, point, case, i, g, m,
                               k_values=k_values if exec_mode == "obs_seq" else None)
+                        if extra is not None and exc is not None:
+                            text, _ = find_all(exc)
+                            parts = [extra] if isinstance(extra, str) else [repr(v) for v in extra]
+                            lost = [p for p in parts if p not in text]
+                            if lost or point["extra_key"] not in text:
+                                rec.violation("C09:obs_seq:parameter-values-missing",
+                                              f"the failing run's value of {point['extra_key']} is not (fully) attached to the error "
+                                              f"({len(lost)} of {len(parts)} part(s) missing): {text[:300]!r}", case, i)
                         if exec_mode == "obs_seq":
                             rec.count("no_events_after_fault_checks")
                             after = events_after_fault(log)
@@ -328,7 +358,9 @@ def calibration_shard(rec, spec):
             algorithm=Algorithm(type="sade", generations=2, population_size=pop),
             parameters=[ParameterValues(key=f"pipeline.{g}.{m}.arguments.a", values="_", boundaries=(0.0, 10.0))],
             result_type="pixel", result_fit_range=(0, rows, 0, cols), target_fit_range=(0, rows, 0, cols),
-            pygmo_seed=rng.randint(1, 9999), num_islands=islands, num_evolutions=2)
+            pygmo_seed=rng.randint(1, 9999), num_islands=islands, num_evolutions=2,
+            pipeline_seed=None if i % 2 == (i // 2) % 2 else rng.randint(0, 2**31 - 1))
+        rec.count("calibration_with_pipeline_seed" if cal.pipeline_seed is not None else "calibration_without_pipeline_seed")
         rec.count("fault_points_planned")
         reset(point)
         exc, ret = None, None
